@@ -252,6 +252,10 @@ func dfsExact(variant string, progs [][]call, bound int, emit func(hx.Case), lim
 }
 
 var dfsPrograms = [][][]call{
+	// a non-final decrement on one goroutine while another registers work, count >= 2 throughout
+	// (no zero crossing): a decrement that is lost or applied twice shows in Count() at rest
+	{{{"a", 2}}, {{"a", 1}}, {{"a", -1}, {"c", 0}}},
+	{{{"a", 2}, {"w", 0}}, {{"a", 1}, {"a", -1}}, {{"a", -1}}},
 	// two waiters around a zero crossing followed by a fresh increment
 	{{{"a", 1}, {"a", -1}}, {{"w", 0}}, {{"a", 1}, {"w", 0}}},
 	// totals beyond 32 bits (a narrowed counter would wrap to zero and release the waiter)
@@ -346,6 +350,9 @@ func runGSync(f *hx.Flags) {
 		}
 		for i := 0; i < nrand; i++ {
 			progs := genProgs(r.Rng)
+			if i%2 == 1 {
+				progs = genCrossProgs(r.Rng)
+			}
 			for j := 0; j < 10; j++ {
 				r.Add(genCase(r.Rng, variant, progs, j%3))
 			}
